@@ -252,7 +252,7 @@ class Parser(object):
         self._parser_check(
             0 <= t[3] < (1 << 32),
             "enumerator '{}' value '{}' out of 32-bit range".format(t[1], t[3]),
-            t.lineno(1), t.lexpos(1)
+            t.lineno(2), t.lexpos(2)
         )
         member = model.EnumMember(t[1], str(t[3]))
         self.constdecls[t[1]] = member
